@@ -85,7 +85,9 @@ Eval vm_compute in (length cases, length (filter (fun c => negb (ok c)) cases)).
     ic = []
     for k in range(10 if quick else 60):
         nh = 1 + k % 5
-        hs = sorted(rng.sample([40.0, 60.0, 75.5, 97.5, 110.0, 135.0, 200.0, 384.0], nh))
+        hs = rng.sample([40.0, 60.0, 75.5, 97.5, 110.0, 135.0, 200.0, 384.0], nh)
+        if k % 2 == 0:
+            hs = sorted(hs)                 # the other half keeps the family in the (arbitrary) order it was stored in
         lt = [-8.5, -7.8, -7.2, -6.5, -5.9, -5.2, -4.5, -3.963, -3.27, -2.864]
         curves = [[round(2 + 0.8 * i + 0.01 * h + rng.uniform(0, 0.3), 4) for i in range(len(lt))] for h in hs]
         ic.append({"B": rng.choice([5.0, 6.1, 7.5]), "rb": 0.075, "heights": hs, "curves": curves, "log_time": lt,
